@@ -25,7 +25,11 @@ class AsyncioRunner(BaseRunner):
         self._payload_failure = asyncio_loop.create_future()
 
     def register_payload(self, payload: Callable[[], Awaitable]):
-        self.asyncio_loop.call_soon_threadsafe(self._setup_payload, payload)
+        try:
+            self.asyncio_loop.call_soon_threadsafe(self._setup_payload, payload)
+        except RuntimeError:
+            # the event loop is already closed: the runtime has shut down
+            self._logger.warning(f"discarding payload {payload} during shutdown")
 
     def run_payload(self, payload: Callable[[], Coroutine]):
         future = asyncio.run_coroutine_threadsafe(payload(), self.asyncio_loop)
